@@ -19,9 +19,10 @@ RULE = ('Hypothesis arguments (generic / modal-heavy / quantifier-heavy profiles
         'at the default options, plus a permutation and a duplication of the premises. Oracle: no configuration raises; '
         'the set of non-limited outcome classes (valid / invalid with a limit-free open branch) over all runs of the '
         'argument has at most one element. Non-trivial = at least two non-limited outcomes and at least two distinct '
-        'step-history signatures in the grid; distinct by (logic, argument). Plus a finite sub-domain enumerated completely: every 2- and '
-        '3-element set of literals from a pool (identity both ways round, self-identity, predications, a letter, and their negations) as '
-        'premises under every permutation, per logic (quick: triples for the classical family only) -- one verdict per set.')
+        'step-history signatures in the grid; distinct by (logic, argument). Plus finite sub-domains enumerated completely: every 2- and '
+        '3-element subset of a pool as the premise set under every permutation, per logic -- pools: literals (identity both ways round, '
+        'self-identity, predications, a letter, negations), 12 short quantified sentences (universal / existential / negated, some introducing '
+        'a new constant) x 4 conclusions, 12 short modal sentences x 4 conclusions (quick: 9 x 2, and triples only for classical literals) -- one verdict per set.')
 ASSUMPTIONS = ['outcomes produced only by step / world / constant limits are not verdicts and are excluded (counted)']
 MAX_STEPS = 200
 
@@ -152,15 +153,43 @@ def literal_pool():
     return pos + [A.neg(x) for x in pos]
 
 
+def small_pools(name):
+    """{pool name: (premise pool, conclusions)} -- finite sub-domains in which premise order is the only thing that varies."""
+    a, b, m = A.const(0), A.const(1), A.const(2)
+    F, G = (0, 0, 1), (1, 0, 1)
+    x = A.var(0)
+    Fx, Gx = ('P', F, (x,)), ('P', G, (x,))
+    pools = {'literal': (literal_pool(), [('P', F, (m,))])}
+    if R.is_quantified(name):
+        U = lambda body: ('Q', 'Universal', x, body)
+        E = lambda body: ('Q', 'Existential', x, body)
+        Gm = ('P', G, (m,))
+        pool = [U(Fx), U(A.op('MaterialConditional', Fx, Gm)), U(A.op('Conditional', Fx, ('P', G, (b,)))), U(A.op('Disjunction', A.neg(Fx), Gx)),
+                E(Fx), E(A.op('Conjunction', Fx, A.neg(Gx))), A.neg(E(Gx)), A.neg(U(Gx)), U(A.neg(Gx)),
+                ('P', F, (a,)), A.neg(('P', G, (a,))), ('P', F, (b,))]
+        pools['quantified'] = (pool, [Gm, ('P', G, (a,)), E(Gx), U(Gx)])
+    if R.is_modal(name):
+        N = lambda s_: A.op('Necessity', s_)
+        P = lambda s_: A.op('Possibility', s_)
+        p, q = A.atom(0), A.atom(1)
+        pool = [N(p), P(p), N(A.op('MaterialConditional', p, q)), N(A.op('Conditional', p, q)), A.neg(N(q)), P(A.neg(q)), A.neg(P(q)),
+                N(N(p)), P(N(p)), p, A.neg(q), N(A.op('Disjunction', A.neg(p), q))]
+        pools['modal'] = (pool, [q, N(q), P(q), N(P(q))])
+    return pools
+
+
 def literal_sets(name, tier):
-    """Finite sub-domain where premise order is the only thing that varies: every 2-element (thorough: and 3-element)
-    subset of a pool of literals as the premise set, an unrelated conclusion; checked under every permutation."""
+    """Yield (pool name, premises, conclusion): every 2-element (thorough, and quick for the classical family: and 3-element)
+    subset of each pool as the premise set, each of the pool's conclusions; checked under every permutation."""
     from itertools import combinations
-    pool = literal_pool()
-    sizes = (2, 3) if (tier != 'quick' or R.is_classical(name)) else (2,)
-    for r in sizes:
-        for sub in combinations(pool, r):
-            yield list(sub)
+    for pname, (pool, cons) in small_pools(name).items():
+        if tier == 'quick' and pname != 'literal':
+            pool, cons = pool[:9], cons[:2]
+        sizes = (2, 3) if (tier != 'quick' or (R.is_classical(name) and pname == 'literal')) else (2,)
+        for r in sizes:
+            for sub in combinations(pool, r):
+                for con in cons:
+                    yield pname, list(sub), con
 
 
 def check_literal_set(case):
@@ -194,17 +223,16 @@ def shards(tier, seed_):
 
 def run_shard(shard, acc):
     if 'literal_sets' in shard:
-        con = ('P', (0, 0, 1), (A.const(2),))
         for name in shard['literal_sets']:
-            shown = False
-            for prem in literal_sets(name, shard['tier']):
+            shown = set()
+            for pname, prem, con in literal_sets(name, shard['tier']):
                 case = prover.mk_case(name, prem, con, max_steps=MAX_STEPS)
                 case['kind'] = 'literal-set'
                 res, seen = check_literal_set(case)
-                acc.case((name, case['premises'], 'literal-set'), nontrivial=bool(seen),
-                         classes=('profile:literal-sets', 'verdict:' + ('mixed' if len(seen) > 1 else next(iter(seen), 'limited'))),
-                         sample=None if shown else prover.case_str(case) + f' => {sorted(seen)} over every premise order')
-                shown = True
+                acc.case((name, case['premises'], case['conclusion'], 'small-set'), nontrivial=bool(seen),
+                         classes=(f'profile:small-sets:{pname}', 'verdict:' + ('mixed' if len(seen) > 1 else next(iter(seen), 'limited'))),
+                         sample=None if (pname, next(iter(seen), '')) in shown else prover.case_str(case) + f' => {sorted(seen)} over every premise order')
+                shown.add((pname, next(iter(seen), '')))
                 for fp, d in res:
                     acc.finding(fp, case, d)
         return
